@@ -179,7 +179,7 @@ impl LayersData {
 
     pub(crate) fn from_vec(layers: Vec<LayerData>) -> Result<Self> {
         // TODO: Validate some properties
-        let parents = compute_parents(&layers);
+        let parents = compute_parents(&layers)?;
         Ok(LayersData { layers, parents })
     }
 }
@@ -297,7 +297,7 @@ fn parse_blend_mode(id: u16) -> Result<BlendMode> {
     }
 }
 
-fn compute_parents(layers: &[LayerData]) -> Vec<Option<u32>> {
+fn compute_parents(layers: &[LayerData]) -> Result<Vec<Option<u32>>> {
     let mut result = Vec::with_capacity(layers.len());
 
     for id in 0..layers.len() {
@@ -307,15 +307,19 @@ fn compute_parents(layers: &[LayerData]) -> Vec<Option<u32>> {
                 None
             } else {
                 // Find first layer with a lower id and a lower child_level.
-                let mut parent_candidate = id - 1;
-                while layers[parent_candidate].child_level >= my_child_level {
-                    assert!(parent_candidate > 0);
-                    parent_candidate -= 1;
-                }
+                let parent_candidate = layers[..id]
+                    .iter()
+                    .rposition(|l| l.child_level < my_child_level)
+                    .ok_or_else(|| {
+                        AsepriteParseError::InvalidInput(format!(
+                            "Layer {} has child level {} but no parent layer",
+                            id, my_child_level
+                        ))
+                    })?;
                 Some(parent_candidate as u32)
             }
         };
         result.push(parent);
     }
-    result
+    Ok(result)
 }
